@@ -592,7 +592,8 @@ func condWaitCtxOK(p *Prog, lf *LockFacts, f *ssa.Function, l *Loop, wait *ssa.C
 					if lf.HeldAt(call)[lf.CondLock[condField]] != 2 {
 						return
 					}
-					if selectCaseReaches(sel, si, call.Block()) {
+					// (on every path of that case, not just on some)
+					if selectCaseReaches(sel, si, call.Block()) && selectCaseAlways(sel, si, call) {
 						wakes = true
 					}
 				})
@@ -642,6 +643,35 @@ func condWaitCtxOK(p *Prog, lf *LockFacts, f *ssa.Function, l *Loop, wait *ssa.C
 		return false, "a path reaches the wait without having started the waker goroutine: " + wit
 	}
 	return true, fmt.Sprintf("each iteration leaves on %s.Err() != nil before waiting; the waker (started once at %s, guarded by a local that is non-nil only after the start) broadcasts on %s with the lock held when that context is done", ctxField, p.ipos(goIns), condField)
+}
+
+// selectCaseAlways: every path of the branch taken for select index si executes the instruction before the function returns.
+func selectCaseAlways(sel *ssa.Select, si int, target ssa.Instruction) bool {
+	var idx ssa.Value
+	for _, r := range *sel.Referrers() {
+		if ex, ok := r.(*ssa.Extract); ok && ex.Index == 0 {
+			idx = ex
+		}
+	}
+	if idx == nil {
+		return false
+	}
+	for _, r := range *idx.Referrers() {
+		bo, ok := r.(*ssa.BinOp)
+		if !ok {
+			continue
+		}
+		cv, isC := constInt(bo.Y)
+		if !isC || int(cv) != si {
+			continue
+		}
+		for _, rr := range *bo.Referrers() {
+			if iff, ok := rr.(*ssa.If); ok {
+				return everyPathFromHits(iff.Block().Succs[0], 0, map[ssa.Instruction]bool{target: true})
+			}
+		}
+	}
+	return false
 }
 
 // selectCaseReaches: the branch taken for select index si can reach block b.
